@@ -9,6 +9,7 @@ import (
 	"net/http"
 	"net/netip"
 	"net/url"
+	"os"
 	"reflect"
 	"regexp"
 	"strconv"
@@ -305,24 +306,32 @@ func buildTables(fs filterSpec, v fieldVal) string {
 		}
 	case "query":
 		for _, s := range v.strings() {
+			encQ := func(q url.Values) string {
+				var qp []string
+				for _, k := range sortedKeys(q) {
+					var vs []string
+					for _, x := range q[k] {
+						vs = append(vs, core.Hex(x))
+					}
+					qp = append(qp, core.Hex(k)+"="+strings.Join(vs, "|"))
+				}
+				if len(qp) == 0 {
+					return "."
+				}
+				return strings.Join(qp, "&")
+			}
 			u, err := url.Parse(s)
 			if err != nil {
 				r.add("U," + core.Hex(s))
+				// the filter falls back to the text after the first '?', up to a '#'
+				if _, after, found := strings.Cut(s, "?"); found {
+					rawQuery, _, _ := strings.Cut(after, "#")
+					q, _ := url.ParseQuery(rawQuery)
+					r.add("Q," + core.Hex(rawQuery) + "," + encQ(q))
+				}
 				continue
 			}
-			q := u.Query()
-			var qp []string
-			for _, k := range sortedKeys(q) {
-				var vs []string
-				for _, x := range q[k] {
-					vs = append(vs, core.Hex(x))
-				}
-				qp = append(qp, core.Hex(k)+"="+strings.Join(vs, "|"))
-			}
-			qs := "."
-			if len(qp) > 0 {
-				qs = strings.Join(qp, "&")
-			}
+			qs := encQ(u.Query())
 			post := ""
 			if u.Fragment != "" {
 				post = "#" + u.EscapedFragment()
@@ -397,7 +406,7 @@ func fltLine(fs filterSpec, key string, v fieldVal) string {
 	return "flt " + fs.String() + " " + core.Hex(key) + " " + v.enc() + " " + buildTables(fs, v)
 }
 
-var tableSyntax = regexp.MustCompile(`^(\.|[TSPMUCR],[0-9a-zA-Z,.=|&~;-]*)$`)
+var tableSyntax = regexp.MustCompile(`^(\.|[TSPMUQCR],[0-9a-zA-Z,.=|&~;-]*)$`)
 
 // runFlt: flt <filter> <key> <kind> <val> <tables>
 func runFlt(f []string) core.Outcome {
@@ -431,6 +440,9 @@ func runFlt(f []string) core.Outcome {
 	// a line whose oracle tables are not what the standard library answers today is reported as such,
 	// but the filter is still run and judged by the oracle (so that failing inputs can be shrunk)
 	tablesOK := buildTables(fs, v) == f[5]
+	if !tablesOK && os.Getenv("C20_DEBUG") != "" {
+		fmt.Fprintln(os.Stderr, "OBSERVED", strings.Join(f[:5], " "), buildTables(fs, v))
+	}
 	orig, _ := mkField(key, v)
 	out := filter.Filter(in)
 
@@ -631,6 +643,13 @@ func fltOracle(o *core.Outcome, fs filterSpec, v fieldVal, out zapcore.Field, ou
 				trivial = false
 			}
 			_, perr := url.Parse(s)
+			if perr != nil {
+				if strings.Contains(s, "?") {
+					o.Tags = append(o.Tags, "flt:query-fallback")
+				} else {
+					o.Tags = append(o.Tags, "flt:query-unparsable-no-query")
+				}
+			}
 			if t := visible(toks); t != "" {
 				if perr != nil {
 					o.Tags = append(o.Tags, "flt:query-unparsable")
